@@ -89,7 +89,9 @@ var pinned = []pinnedCase{
 	{kind: "number", s: "-000"},
 	{kind: "parseInt", s: "-00", radix: 16},
 	{kind: "parseInt", s: "zzzzzzzzzzzzzzzzzzzzzzzz", radix: 36},
-	{kind: "hang", x: 9.99999999e-315, arg: 0}, // found: toFixed on this subnormal does not terminate (run only once the fix is merged)
+	{kind: "hang", x: 9.99999999e-315, arg: 0},                                      // found: toFixed on this subnormal does not terminate (run only once the fix is merged)
+	{kind: "parseInt", s: "1393796574908164101088487302713056956514305", radix: 10}, // 2^140+2^87+1: digits behind the 38th decide the rounding (seeded mutation parseint-20-digits)
+	{kind: "number", s: "1393796574908164101088487302713056956514305"},
 }
 
 func Check() *core.Check {
@@ -103,7 +105,7 @@ func Check() *core.Check {
 		Assumptions: []string{
 			"Number::toString last digit: the specification requires a minimal digit count that round-trips and only recommends (NOTE 2) the closest candidate; a non-closest but round-tripping shortest output is reported under its own monitor 'not-closest-digit'",
 			"toString(radix != 10) is implementation-approximated by the specification: judged by exact parse-back to the same double and well-formedness only",
-			"parseInt with radix 10 and more than 20 significant digits may zero the digits after the 20th; radices other than 2,4,8,10,16,32 beyond 2^53 are judged to 2^-40 relative accuracy only",
+			"parseInt is judged against the exact integer for every length and radix (the property statement); the latitude of ECMA-262 19.2.5 (zeroing decimal digits after the 20th, approximate radices other than 2,4,8,10,16,32) is not accepted and only counted as evidence",
 			"while a finding is listed in known-findings.d/C12.json the generator leaves out the input neighbourhood written next to it (counted as excluded:<id> in the evidence)",
 		},
 		Cases: func(tier string) int {
@@ -830,6 +832,24 @@ func (b *batch) runArray(src string, n int, each func(i int, got goja.Value, pro
 	}
 }
 
+func pintArg(it pint) string {
+	switch {
+	case !it.hasRadix:
+		return "radix=undefined"
+	case it.strRadix:
+		return fmt.Sprintf("radix=%q", fmt.Sprint(it.radix))
+	}
+	return "radix=" + fmt.Sprint(it.radix)
+}
+
+// exactly: the property requires the double nearest to the exact integer for inputs of any length and every radix; the
+// latitude ECMA-262 19.2.5 gives (zeroing decimal digits after the 20th, approximating radices other than 2,4,8,10,16,32)
+// is not accepted. Where the specification would allow a second result this is counted as evidence (parseInt:two-allowed-results,
+// parseInt:approx-domain).
+func exactly(res numref.ParseIntResult) func(float64) bool {
+	return func(f float64) bool { return numref.SameValue(f, res.Value) }
+}
+
 func (b *batch) parseInts(items []pint) {
 	st := b.st
 	for _, it := range items {
@@ -852,20 +872,26 @@ func (b *batch) parseInts(items []pint) {
 			st.Inc("parseInt:two-allowed-results")
 		}
 		want := res.Value
-		arg := "radix=undefined"
+		if it.fam != "" {
+			st.Inc("family:parseInt:" + it.fam)
+		}
+		st.Max("parseInt_max_digits", int64(len(it.s)))
+		arg := pintArg(it)
 		sv := b.t.r.ToValue(it.s)
 		if it.hasRadix {
-			arg = "radix=" + fmt.Sprint(it.radix)
 			rv := b.t.r.ToValue(it.radix)
+			if it.strRadix {
+				rv = b.t.r.ToValue(fmt.Sprint(it.radix))
+			}
 			v, p := b.t.call("pi", sv, rv)
-			b.numResult("parseInt", "parseInt", "runtime:pi(go-string)", it.s, "parseInt", arg, v, p, res.Accepts, want)
+			b.numResult("parseInt", "parseInt", "runtime:pi(go-string)", it.s, "parseInt", arg, v, p, exactly(res), want)
 			if b.c.Rng.Chance(1, 4) {
 				v, p = b.t.call("npi", sv, rv)
-				b.numResult("parseInt", "parseInt", "runtime:Number.parseInt", it.s, "parseInt", arg, v, p, res.Accepts, want)
+				b.numResult("parseInt", "parseInt", "runtime:Number.parseInt", it.s, "parseInt", arg, v, p, exactly(res), want)
 			}
 		} else {
 			v, p := b.t.call("pi1", sv)
-			b.numResult("parseInt", "parseInt", "runtime:pi1(go-string)", it.s, "parseInt", arg, v, p, res.Accepts, want)
+			b.numResult("parseInt", "parseInt", "runtime:pi1(go-string)", it.s, "parseInt", arg, v, p, exactly(res), want)
 		}
 	}
 	// same inputs as string literals in one program
@@ -880,7 +906,9 @@ func (b *batch) parseInts(items []pint) {
 			src.WriteString(",\n")
 		}
 		kept = append(kept, it)
-		if it.hasRadix {
+		if it.hasRadix && it.strRadix {
+			src.WriteString(`parseInt("` + quote(it.s) + `", "` + fmt.Sprint(it.radix) + `")`)
+		} else if it.hasRadix {
 			src.WriteString(`parseInt("` + quote(it.s) + `", ` + fmt.Sprint(it.radix) + `)`)
 		} else {
 			src.WriteString(`parseInt("` + quote(it.s) + `")`)
@@ -897,7 +925,7 @@ func (b *batch) parseInts(items []pint) {
 			R = numref.ToInt32(float64(it.radix))
 		}
 		res := numref.ParseInt(numref.Units(it.s), R)
-		b.numResult("parseInt", "parseInt", "source:string-literal", it.s, "parseInt", map[bool]string{true: "radix=" + fmt.Sprint(it.radix), false: "radix=undefined"}[it.hasRadix], got, prob, res.Accepts, res.Value)
+		b.numResult("parseInt", "parseInt", "source:string-literal", it.s, "parseInt", pintArg(it), got, prob, exactly(res), res.Value)
 	})
 }
 
@@ -946,7 +974,11 @@ func run(c *core.Ctx) core.Result {
 		default:
 			var items []pint
 			for i := 0; i < pintsPerCase; i++ {
-				items = append(items, genParseInt(r))
+				if i%3 == 0 {
+					items = append(items, genParseIntMidpoint(r))
+				} else {
+					items = append(items, genParseInt(r))
+				}
 			}
 			key = "p:" + items[0].s + fmt.Sprint(items[0].radix)
 			b.parseInts(items)
